@@ -1,14 +1,146 @@
-//! Campaigns that need more than numbers in, numbers out (serialization, Arbitrary): added later.
-use crate::gen::Rng;
-use crate::run::Case;
+//! Campaigns that need more than numbers in, numbers out: `Arbitrary` (C19), serialization (C18).
+use crate::gen::*;
+use crate::run::{Case, Val};
+use crate::types::*;
+use arbitrary::{Arbitrary, Unstructured};
+use piecewise_polynomial::*;
+use std::panic::{catch_unwind, AssertUnwindSafe};
 
-pub fn is_extra(_campaign: &str) -> bool {
-    false
+pub fn is_extra(campaign: &str) -> bool {
+    matches!(campaign, "arbitrary" | "serde")
 }
-pub fn gen_case(campaign: &str, _r: &mut Rng) -> Case {
-    panic!("unknown campaign {campaign}")
+
+fn hex_bytes(b: &[u8]) -> String {
+    b.iter().map(|x| format!("{x:02x}")).collect()
 }
+pub fn parse_hex_bytes(s: &str) -> Vec<u8> {
+    (0..s.len() / 2).map(|i| u8::from_str_radix(&s[2 * i..2 * i + 2], 16).unwrap_or(0)).collect()
+}
+
+pub fn gen_case(campaign: &str, r: &mut Rng) -> Case {
+    match campaign {
+        "arbitrary" => {
+            let tag = *r.pick(&["p0", "p0", "p1", "p2", "p3", "p4", "p5", "p6", "p7", "p8", "pn"]);
+            let mut bytes: Vec<u8> = vec![];
+            let style = r.below(8);
+            let mut cls = format!("{tag}:style={style}");
+            if style == 0 {
+                let n = r.below(200) as usize;
+                for _ in 0..n {
+                    bytes.push(r.below(256) as u8);
+                }
+            } else {
+                // structured: [bool f64]* terminator pieces
+                let n = match style {
+                    1 => 0,
+                    _ => 1 + r.below(6) as usize,
+                };
+                let mut ends = vec![];
+                for i in 0..n {
+                    let e = match style {
+                        2 => (n - i) as f64 * 1.5,                       // descending
+                        3 => gen_cls(r, Cls::Normal),                     // random normal, any sign
+                        4 => {
+                            // one bad end among good ones
+                            if r.chance(1, 3) {
+                                *r.pick(&[f64::NAN, f64::INFINITY, f64::NEG_INFINITY, 0.0, -0.0, 5e-324, f64::MIN_POSITIVE / 2.0])
+                            } else {
+                                gen_cls(r, Cls::Normal)
+                            }
+                        }
+                        5 => *r.pick(&[1.0, 2.0, -3.0, f64::MIN_POSITIVE, f64::MAX, -f64::MAX]), // duplicates, extremes
+                        _ => moderate(r).0,
+                    };
+                    ends.push(e);
+                }
+                for e in &ends {
+                    bytes.push(if r.chance(1, 2) { 1 } else { (r.below(128) * 2 + 1) as u8 });
+                    bytes.extend_from_slice(&e.to_bits().to_le_bytes());
+                }
+                if r.chance(3, 4) {
+                    bytes.push((r.below(128) * 2) as u8); // explicit `false`
+                }
+                // piece data: full, truncated or random
+                let want = ends.len() * 8 * (1 + tag_len(tag).min(9));
+                let have = match r.below(3) {
+                    0 => want,
+                    1 => r.below(want as u64 + 1) as usize,
+                    _ => want + 16,
+                };
+                for _ in 0..have {
+                    bytes.push(if r.chance(1, 8) { 1 } else { r.below(256) as u8 });
+                }
+                cls.push_str(&format!(":n={}:short={}", n.min(3), have < want));
+            }
+            let mut c = Case::new("arbitrary", tag).set("bytes", Val::S(hex_bytes(&bytes))).cls(&cls);
+            c.nontrivial = bytes.len() >= 18;
+            c
+        }
+        other => crate::serde_campaign::gen_case(other, r),
+    }
+}
+
 /// hook for cases read back from a corpus / replay file
 pub fn prepare(c: Case) -> Case {
     c
+}
+
+fn arb_one<T>(bytes: &[u8]) -> (String, String)
+where
+    T: for<'a> Arbitrary<'a> + Nums + Evaluate,
+{
+    let r = catch_unwind(AssertUnwindSafe(|| {
+        let mut u = Unstructured::new(bytes);
+        match Piecewise::<T>::arbitrary(&mut u) {
+            Err(_) => ("ERR".to_string(), "1".to_string()),
+            Ok(pw) => {
+                // every value returned can be evaluated three ways with identical segment choice
+                let mut xs: Vec<f64> = vec![f64::NEG_INFINITY];
+                for s in &pw.segments {
+                    xs.push(next_down(s.end));
+                    xs.push(s.end);
+                    xs.push(next_up(s.end));
+                }
+                xs.push(f64::INFINITY);
+                xs.sort_by(|a, b| a.partial_cmp(b).unwrap());
+                let agree = catch_unwind(AssertUnwindSafe(|| {
+                    let direct: Vec<u64> = xs.iter().map(|x| pw.evaluate(*x).to_bits()).collect();
+                    let mut ev = PiecewiseEvaluator::new(&pw.segments);
+                    let via_ev: Vec<u64> = xs.iter().map(|x| ev.evaluate(*x).to_bits()).collect();
+                    let via_v: Vec<u64> = pw.evaluate_v(xs.iter().cloned()).map(|y| y.to_bits()).collect();
+                    let nan_eq = |a: &Vec<u64>, b: &Vec<u64>| {
+                        a.len() == b.len() && a.iter().zip(b).all(|(x, y)| x == y || (f64::from_bits(*x).is_nan() && f64::from_bits(*y).is_nan()))
+                    };
+                    nan_eq(&direct, &via_ev) && nan_eq(&direct, &via_v)
+                }))
+                .unwrap_or(false);
+                (show_pw(&pw_from(&pw)), if agree { "1".into() } else { "0".into() })
+            }
+        }
+    }));
+    r.unwrap_or(("PANIC".to_string(), "1".to_string()))
+}
+
+pub fn run_extra(c: &Case) -> Option<Vec<(String, String)>> {
+    match c.cmd.as_str() {
+        "arbitrary" => {
+            let bytes = parse_hex_bytes(c.st("bytes"));
+            let (imp, agree) = match c.tag.as_str() {
+                "p0" => arb_one::<Poly0>(&bytes),
+                "p1" => arb_one::<Poly1>(&bytes),
+                "p2" => arb_one::<Poly2>(&bytes),
+                "p3" => arb_one::<Poly3>(&bytes),
+                "p4" => arb_one::<Poly4>(&bytes),
+                "p5" => arb_one::<Poly5>(&bytes),
+                "p6" => arb_one::<Poly6>(&bytes),
+                "p7" => arb_one::<Poly7>(&bytes),
+                "p8" => arb_one::<Poly8>(&bytes),
+                "pn" => arb_one::<PolyN>(&bytes),
+                _ => ("UNSUPPORTED".into(), "1".into()),
+            };
+            Some(vec![("agree".into(), agree), ("impl".into(), imp)])
+        }
+        "serde" => crate::serde_campaign::run(c),
+        _ => None,
+    }
 }
